@@ -607,6 +607,87 @@ impl<'a> Gen<'a> {
         Step::Stmt(stmt)
     }
 
+    /// Statements under test for the fault engine (C15): they are applied to the generator's
+    /// model so that later ones see the effect of earlier DML.
+    pub fn fault_tests(&mut self) -> Vec<Stmt> {
+        let mut out = vec![];
+        let n = 4 + self.rng.usize(5);
+        for _ in 0..n {
+            let Some(t) = self.pick_table() else { break };
+            let def = self.model.tables[&t].0.clone();
+            let ints: Vec<String> = def
+                .cols
+                .iter()
+                .filter(|c| c.ty == Ty::Int)
+                .map(|c| c.name.clone())
+                .collect();
+            let s = match self.rng.usize(9) {
+                0 => {
+                    let mut q = Query::star(&t);
+                    q.pred = self.gen_pred(&def, true);
+                    q.cols = self.gen_projection(&def);
+                    Stmt::Select(q)
+                }
+                1 => {
+                    let c = def.cols[self.rng.usize(def.cols.len())].name.clone();
+                    Stmt::Raw(format!("SELECT {c}, count(*) FROM {t} GROUP BY {c}"))
+                }
+                2 => match ints.first() {
+                    Some(c) => Stmt::Raw(format!("SELECT count(*), sum({c}), min({c}) FROM {t}")),
+                    None => Stmt::Raw(format!("SELECT count(*) FROM {t}")),
+                },
+                3 => Stmt::Select(self.gen_order_query(&t)),
+                4 => {
+                    // two-table join on INT columns. No self-joins: two scans of the same file
+                    // coalesce their block loads in the cache depending on real timing, which
+                    // would make the statement's syscall sequence differ between replays.
+                    let t2 = self.pick_table().unwrap();
+                    let t2 = if t2 == t {
+                        self.model
+                            .tables
+                            .keys()
+                            .find(|n| **n != t)
+                            .cloned()
+                            .unwrap_or(t2)
+                    } else {
+                        t2
+                    };
+                    let def2 = self.model.tables[&t2].0.clone();
+                    let ints2: Vec<String> = def2
+                        .cols
+                        .iter()
+                        .filter(|c| c.ty == Ty::Int)
+                        .map(|c| c.name.clone())
+                        .collect();
+                    match (ints.first(), ints2.last()) {
+                        (Some(a), Some(b)) if t2 != t => Stmt::Raw(format!(
+                            "SELECT x.{a}, y.{b} FROM {t} x JOIN {t2} y ON x.{a} = y.{b}"
+                        )),
+                        _ => Stmt::Select(Query::star(&t)),
+                    }
+                }
+                5 | 6 => {
+                    let pred = self.gen_pred(&def, true);
+                    Stmt::InsertSelect {
+                        table: t.clone(),
+                        from: t.clone(),
+                        pred,
+                    }
+                }
+                7 => self.gen_insert(&t),
+                _ => {
+                    let pred = self.gen_pred(&def, true);
+                    Stmt::Delete { table: t.clone(), pred }
+                }
+            };
+            if !matches!(self.model.expect(&s), Expect::Err(_)) {
+                self.model.apply(&s);
+            }
+            out.push(s);
+        }
+        out
+    }
+
     pub fn history(&mut self) -> Vec<Step> {
         let n = 3 + self.rng.usize(self.prof.max_steps.saturating_sub(2).max(1));
         (0..n).map(|_| self.step()).collect()
